@@ -1216,6 +1216,14 @@ def _option_models(base, types_only):
                            "ib/_package.yml": "namespace: Ib\nimports:\n  - ../id\n", "ib/model.yml": "Tb: !record\n  fields:\n    d: Id.Td\n",
                            "ic/_package.yml": "namespace: Ic\nimports:\n  - ../id\n", "ic/model.yml": "Tc: !record\n  fields:\n    d: Id.Td\n    e: Id.Ed\n",
                            "id/_package.yml": "namespace: Id\n", "id/model.yml": "Td: !record\n  fields:\n    v: int\nEd: !enum\n  values: [p, q]\n"},
+        # local types used only as type arguments of imported generics, written before they are defined (record, enum, alias, union,
+        # nested argument): definitions must still come out in dependency order in every back end
+        "local-types-as-arguments-of-imported-generics": {
+            "model/model.yml": "Ev: !record\n  fields:\n    sev: Imp.Zg<Sev>\n    inner: Imp.Zg<Imp.Zg<Late>>\n    pair: Imp.Zp<Late, Sev>\n    al: Imp.Za<Lal>\n"
+                               "Pe: !protocol\n  sequence:\n    a: Ev\n    b: Imp.Zg<Late>\n    c: !stream\n      items: Imp.Zp<Sev, Lal>\n"
+                               "Lal: Late*\nSev: !enum\n  values: [low, high]\nLate: !record\n  fields:\n    v: int\n",
+            "imp/_package.yml": "namespace: Imp\n",
+            "imp/model.yml": "Zg<T>: !record\n  fields:\n    zy: T\nZp<A, B>: !record\n  fields:\n    a: A\n    b: B\nZa<T>: T?\n"},
         "with-version": {"model/model.yml": base, "v0/_package.yml": "namespace: Bq\n", "v0/model.yml": base.replace("    gq: string?\n", "    gq: string\n")},
     }
 
